@@ -304,6 +304,29 @@ func (p *Program) VerifyFunction(id string) (res *FuncResult) {
 	}
 	if isInit {
 		pkgName := fn.Pkg.Pkg.Name()
+		for _, fm := range p.Contracts.Forbids {
+			if fm.Pkg != pkgName {
+				continue
+			}
+			exists := false
+			if tn, ok := fn.Pkg.Pkg.Scope().Lookup(fm.Type).(*types.TypeName); ok {
+				for _, t := range []types.Type{tn.Type(), types.NewPointer(tn.Type())} {
+					ms := types.NewMethodSet(t)
+					for i := 0; i < ms.Len(); i++ {
+						if ms.At(i).Obj().Name() == fm.Method {
+							exists = true
+						}
+					}
+				}
+			} else {
+				e.cerrors = append(e.cerrors, fm.Src+": unknown type "+fm.Type)
+			}
+			e.curPos = fn.Pos()
+			o := e.oblige("structure", "structure.no_method."+fm.Type+"."+fm.Method, "type "+fm.Type+" must not have a method "+fm.Method+": "+fm.Reason, True, BoolLit(!exists), nil)
+			if o != nil {
+				o.Props = fm.Props
+			}
+		}
 		for _, gi := range p.Contracts.Globals {
 			if gi.Pkg != pkgName {
 				continue
